@@ -3,7 +3,7 @@ SPECIFICATION MCSpec
 CONSTANTS
   Stores = {"s1", "s2"}
   Txns = {"t1", "t2", "t3"}
-  Findings = {"copyReadsPassive", "staleSnapshot", "logFlagLost", "ffNotIdempotent", "createFailsOnPassive", "failoverNotDurable"}
+  Findings = {"copyReadsPassive", "staleSnapshot", "logFlagLost", "ffNotIdempotent", "createFailsOnPassive", "failoverNotDurable", "copyFailsOnDroppedStore"}
   NoR = 0
   MaxLid = 4
   MaxR = 8
